@@ -108,6 +108,7 @@ func (a *agg) finish() {
 	a.rep.Stats["discrepancies_of_other_properties"] = a.other
 	a.rep.Stats["drift_on_special_names"] = a.drift
 	a.rep.Stats["cases_stopped_early"] = a.stopped
+	a.rep.Stats["fd_leaks"] = FdLeaks
 }
 
 // TestReplay executes TLC-generated behaviours of spec/UfsTree.tla (VERIF_BEH, ndjson) on the
